@@ -44,7 +44,13 @@ impl AtomicU64 {
     #[verifier::external_body]
     pub fn load(&self, o: Ordering) -> (r: u64) { unimplemented!() }
 }
+/// shared attempt counter: other requests of the same layer update it concurrently, so a read is arbitrary
 pub struct AtomicU32 { pub id: Ghost<int> }
+impl AtomicU32 {
+    #[verifier::external_body] pub fn load(&self, o: Ordering) -> (r: u32) { unimplemented!() }
+    #[verifier::external_body] pub fn store(&self, v: u32, o: Ordering) { unimplemented!() }
+    #[verifier::external_body] pub fn fetch_add(&self, v: u32, o: Ordering) -> (r: u32) ensures r < u32::MAX { unimplemented!() }
+}
 /// interval functions of tower-resilience-retry (decided by C14) and the user predicate: pure functions
 pub struct FixedInterval { pub id: Ghost<int> }
 pub struct ExponentialBackoff { pub id: Ghost<int> }
@@ -97,6 +103,14 @@ impl ReconnectState {
     pub fn clone(&self) -> (r: Self)
         ensures r.state == self.state,   // #clones_share_the_published_state [C16]
     //@derive_clone ReconnectState
+    pub fn state(&self) -> (r: ConnectionState)
+    //@body ReconnectState::state file=state
+    pub fn attempts(&self) -> (r: u32)
+    //@body ReconnectState::attempts file=state
+    pub fn increment_attempts(&self) -> (r: u32)
+    //@body ReconnectState::increment_attempts file=state
+    pub fn reset_attempts(&self)
+    //@body ReconnectState::reset_attempts file=state
     pub fn encode_state(state: ConnectionState) -> (r: u64)
         ensures r == enc(state),   // #encodes_each_state_distinctly [C16]
     //@body ReconnectState::encode_state file=state
